@@ -6,7 +6,7 @@ import kernels, tvlib, harness_acd, harness_solvers
 import solverlib as sl
 
 GEN_SOURCES = ["skglm/solvers/anderson_cd.py", "skglm/datafits/single_task.py", "skglm/utils/prox_funcs.py", "skglm/penalties/separable.py", "skglm/solvers/gram_cd.py"]
-EXTRA_TARGETS = ["Skel/MockACD.vo", "Gen/KernCD.vo", "Gen/KernACD.vo", "Gen/DfSingle.vo", "Gen/PenSeparable.vo", "Skel/CorrSolvers.vo", "Skel/GramCDProofs.vo", "Skel/GroupBCDProofs.vo"]
+EXTRA_TARGETS = ["Skel/MockACD.vo", "Gen/KernCD.vo", "Gen/KernACD.vo", "Gen/DfSingle.vo", "Gen/PenSeparable.vo", "Skel/CorrSolvers.vo", "Skel/GramCDProofs.vo", "Skel/GroupBCDProofs.vo", "Skel/ProxNewtonProofs.vo", "Skel/FistaProofs.vo"]
 TRUSTED_BASE = [
     "Coq 8.16.1 kernel (coqc); vm_compute only in correspondence files",
     "axioms: Reals (sig_forall_dec, sig_not_dec), functional_extensionality_dep, Classical_Prop.classic",
@@ -44,7 +44,7 @@ def oracle(tier, rng, deep=False):
     import skglm.datafits as sd, skglm.penalties as sp, skglm.solvers as ss
     failures, samples = [], []
     ev = nontriv = 0
-    nrep = 24 if tier == "quick" and not deep else 160
+    nrep = 24 if tier == "quick" and not deep else (72 if tier == "quick" else 160)   # quick + broken obligation: 3x the quick search
     for _ in range(nrep):
         sname = rng.choice(["AndersonCD", "AndersonCD", "GramCD", "ProxNewton", "GroupBCD", "MultiTaskBCD"])
         fi = rng.random() < 0.5 and sname != "GramCD"
@@ -88,6 +88,9 @@ def oracle(tier, rng, deep=False):
                 dname = "Quadratic" if sname == "GramCD" else rng.choice(sl.CD_DATAFITS if sname == "AndersonCD" else ["Logistic", "Poisson", "Gamma"])
                 ctor, ykind, pgen = sl.DATAFITS[dname]
                 X, y = sl.make_problem(rng, kind=ykind)
+                wide = sname == "AndersonCD" and rng.random() < 0.3
+                if wide:                                   # more features than samples, started from a dense point (support > n_samples)
+                    X, y = sl.make_problem(rng, n=rng.randint(4, 7), p=rng.randint(9, 16), kind=ykind)
                 n, p = X.shape
                 if p > 2 and rng.random() < 0.5:
                     X[:, 1] = X[:, 0] + 0.05 * X[:, 1]
@@ -100,8 +103,8 @@ def oracle(tier, rng, deep=False):
                 pos = rng.random() < 0.2 and pk != "SCAD"
                 pen, PP = sl.make_penalty(pk, rng, p, alpha, pos)
                 w_init = Xw_init = None
-                if rng.random() < 0.3:
-                    w_init = np.array([abs(rng.gauss(0, 1)) if rng.random() < 0.5 else 0.0 for _ in range(p + fi)])
+                if wide or rng.random() < 0.3:
+                    w_init = np.array([abs(rng.gauss(0, 1)) if (wide or rng.random() < 0.5) else 0.0 for _ in range(p + fi)])
                     Xw_init = X @ w_init[:p] + (w_init[-1] if fi else 0.0)
                 w0, b0 = (np.zeros(p), 0.0) if w_init is None else (w_init[:p], (w_init[-1] if fi else 0.0))
                 Fs = [sl.objective(dname, DP, pk, PP, X, y, w0, b0)]
